@@ -344,7 +344,8 @@ def instantiate_pairing(ctx, w, meth, op, case, st_mf, racc, where):
     ids = [o for o in case['operands'] if o[0] in ('each', 'names')]
     ctx.require(len(ids) == 1, f'{meth}: cannot find the id list among the operands')
     it, bytes_rev = ids[0][1], ids[0][2]
-    is_keys = it[0] == 'call' and it[1][0] == 'attr' and it[1][2] == 'keys' and it[1][1] == ('param', 'delta')
+    # the keys of the map: delta.keys(), or the map itself (iterating a mapping yields its keys)
+    is_keys = it == ('param', 'delta') or (it[0] == 'call' and it[1][0] == 'attr' and it[1][2] == 'keys' and it[1][1] == ('param', 'delta'))
     # tracker: the n slots below the top, bottom to top, equal list(delta.values()) (or reversed)
     stack_rev = None
     for rec in st_mf.paths:
@@ -371,7 +372,8 @@ def claims_discipline(ctx, py: PyRepo, rust_arms):
     where = py.where('proof', py.method('ProofExp', 'execute_claims_phase'))
     # checker: Publish in the proof phase takes the claim with Vec::pop (LIFO)
     lifo = any(s[0] == 'claimpop' for ap in rust_arms.get('Publish', []) for s in ap.steps)
-    ev = PyEval()
+    from ..core.pyfacts import self_method_resolver
+    ev = PyEval(resolver=self_method_resolver(py, py.cls('ProofExp'), ('param', 'self'), only_private=True))
 
     def loop_iter(meth):
         fn = py.method('ProofExp', meth)
